@@ -73,7 +73,12 @@ def proof_status(prop_files, clean=False):
         if not os.path.exists(os.path.join(COQ, 'Makefile')):
             sh("cd %s && coq_makefile -f _CoqProject -o Makefile" % COQ)
         if clean:
-            sh("cd %s && make clean" % COQ)
+            # thorough tier: rebuild the whole development from clean - once per state of the sources (the stamp is keyed
+            # by the content hash of coq/), not once per property
+            stamp = os.path.join(WORK, 'clean-' + tree_hash([COQ]) + '.stamp')
+            if not os.path.exists(stamp):
+                sh("cd %s && make clean" % COQ)
+                open(stamp, 'w').write(str(time.time()))
         targets = ' '.join(f[:-2] + '.vo' for f in prop_files)
         r = sh("cd %s && timeout 3000 make -j16 %s" % (COQ, targets))
         if r.returncode != 0:
@@ -102,6 +107,16 @@ def proof_status(prop_files, clean=False):
                         open_ax.append("%s: %d of %d theorems closed; %s" % (f, c, len(pa), ' '.join(a.strip() for a in ax)[:600]))
         if open_ax:
             problems += open_ax
+    if clean and not problems:
+        # independent re-check of the compiled property files and everything they depend on, with the axioms they rely on
+        for f in prop_files:
+            mod = 'EPD.' + f[:-2].replace('/', '.')
+            r3 = sh("cd %s && timeout 3000 coqchk -silent -o -Q . EPD %s 2>&1 | tail -15" % (COQ, mod))
+            if 'Axioms: <none>' not in r3.stdout.replace('\n', ' ') and '* Axioms: <none>' not in r3.stdout:
+                if 'Axioms:' in r3.stdout and '<none>' not in r3.stdout.split('Axioms:')[1][:40]:
+                    problems.append("coqchk reports axioms for %s: %s" % (f, r3.stdout[-400:]))
+                elif r3.returncode != 0 or 'Error' in r3.stdout or 'rror:' in r3.stdout:
+                    problems.append("coqchk failed for %s: %s" % (f, r3.stdout[-400:]))
     bad = forbidden_scan()
     if bad:
         problems.append("forbidden vernacular: " + '; '.join(bad[:10]))
@@ -280,8 +295,14 @@ def load_findings():
     return out
 
 def sig_matches(f, v):
+    import fnmatch
     for k in ('property', 'panel', 'site', 'clause'):
-        if f.get(k, '*') != '*' and f.get(k) != v.get(k):
+        if f.get(k, '*') == '*':
+            continue
+        if k == 'clause' and '*' in f[k]:
+            if not fnmatch.fnmatchcase(str(v.get(k, '')), f[k]):
+                return False
+        elif f.get(k) != v.get(k):
             return False
     if 'class' in f and f['class'] not in ('*', v.get('class', '')):
         return False
@@ -396,11 +417,12 @@ def oracle_run(suite, seed, tier, feats=('v3', 'v2', 'alt')):
                 if not hexe:
                     res['errors'].append("harness build failed (%s): %s" % (feat, err[-1500:]))
                     continue
-                fails, st = oracle.run_oracle(panels_for(feat), feat, suite, seed, hexe, mexe, os.path.join(odir, feat))
-                res['fails'] += fails
-                res['cases'] += st['cases']
-                res['ops'] += st['ops']
-                res['errors'] += st['errors']
+                for su in (suite, 'win', 'pair'):
+                    fails, st = oracle.run_oracle(panels_for(feat), feat, su, seed, hexe, mexe, os.path.join(odir, feat))
+                    res['fails'] += fails
+                    res['cases'] += st['cases']
+                    res['ops'] += st['ops']
+                    res['errors'] += st['errors']
         res['wall_s'] = time.time() - t0
         json.dump(res, open(idx, 'w'))
         dirs = sorted(glob.glob(os.path.join(WORK, 'orc-*')), key=os.path.getmtime)
